@@ -494,6 +494,30 @@ pub fn run(ctx: &Ctx) {
 
     super::regressions::run(ctx, "C06", replay);
 
+    // every keyword and every reserved word in every position a word can take (most are syntax errors; none may panic)
+    let mut words: Vec<String> = lex::KEYWORDS.iter().map(|w| w.to_string()).collect();
+    words.extend(["key", "val", "starts", "ends", "true", "false", "facts", "a", "i1", "f1", "d1", "inf", "NaN", "_", "é"].iter().map(|w| w.to_string()));
+    words.sort();
+    words.dedup();
+    let frames: [&str; 12] = ["{w}", "{w}(i1)", "{w} (x.y)", "x.{w}", ":{w}", ":{w}.{w}", "{{{w}: i1}}", "[{w}, {w}]", "@{w}: i1; a", "@k: {w}; a", "{w}.{w}({w})", "if {w} then {w} else {w}"];
+    let nw = words.len() as u64;
+    ctx.enumerate(
+        "words-in-every-position",
+        nw * frames.len() as u64,
+        true,
+        |i, acc| {
+            let text = frames[(i / nw) as usize].replace("{w}", &words[(i % nw) as usize]).replace("{{", "{").replace("}}", "}");
+            acc.cell("word-position", true);
+            if i % 53 == 0 {
+                acc.sample("word-position", || text.clone());
+            }
+            check_text(&text)?;
+            check_text(&format!("// n\n{text}"))
+        },
+        |i| json!({"text": frames[(i / nw) as usize].replace("{w}", &words[(i % nw) as usize]).replace("{{", "{").replace("}}", "}")}),
+        "text",
+    );
+
     // texts of 4 kB to 2 MB that are long rather than deep, each in a child process (an abort cannot be caught in-process)
     ctx.enumerate(
         "large-flat-texts",
